@@ -261,22 +261,7 @@ func runC04(c *eng.Ctx) {
 
 	// ---- R04.5 replica progress
 	c.Rule("R04.5", "K3")
-	c.WhoMayCall("updateISRLatestOffset", []string{"server.partition.updateISRLatestOffset"},
-		[]string{"server.(*replicator).start", "server.(*partition).messageProcessingLoop"},
-		[]string{"server.(*replicator).start", "server.(*partition).messageProcessingLoop"})
-	for _, s := range ix.Sites("server.partition.updateISRLatestOffset") {
-		call := s.Instr.(*ssa.Call)
-		switch s.Outer() {
-		case "server.(*replicator).start":
-			ok := eng.LoadNamed("replica", nil)(call.Call.Args[1]) && eng.LoadNamed("Offset", nil)(call.Call.Args[2])
-			c.Check(ok, "follower progress from its replication request", c.Pos(call), "updateISRLatestOffset(r.replica, req.Offset)", "follower progress is not taken from (r.replica, req.Offset)")
-		case "server.(*partition).messageProcessingLoop":
-			ok := eng.LoadNamed("ServerID", nil)(call.Call.Args[1])
-			i := indexOfLoad(call.Call.Args[2])
-			ok = ok && i != nil && eng.Call(0, "server/commitlog.CommitLog.Append")(i.X)
-			c.Check(ok, "leader progress from its own append", c.Pos(call), "updateISRLatestOffset(own server id, last appended offset)", "leader progress is not (own id, last offset returned by Append)")
-		}
-	}
+	ruleReplicaProgressSources(c)
 	if fn := c.Fn("server.(*replica).updateLatestOffset"); fn != nil {
 		off := p.Field("server", "replica", "offset")
 		for _, st := range eng.FieldStores(fn, func(fa *ssa.FieldAddr) bool { return fieldIs(fa, off) }) {
@@ -309,6 +294,11 @@ func runC04(c *eng.Ctx) {
 	c.Floor(2)
 	// ---- R15.8 (shared) the configuration keys this property's switches hang on reach their fields
 	ruleConfigWiring(c, "R15.8")
+
+	// ---- R02.4 (shared) fetch requests of another epoch are not counted as replica progress
+	c.Rule("R02.4", "K1")
+	ruleLeaderServesOwnEpoch(c)
+	c.Floor(2)
 
 }
 
@@ -501,5 +491,28 @@ func ruleAddedReplicaUnconfirmed(c *eng.Ctx) {
 			}
 		})
 		c.Check(ok, "added replica starts at offset -1", p.Pos(fn.Pos()), "p.isr[rep] = &replica{offset: -1}", "a replica added to the ISR does not start at offset -1: it could be counted as having data it does not have")
+	}
+}
+
+// ruleReplicaProgressSources (part of R04.5, shared with C02): what the leader believes a replica holds comes only from that
+// replica's own fetch request (its log end) and, for the leader itself, from its own append. Recording progress when data is
+// merely SENT lets the watermark pass messages no follower has stored.
+func ruleReplicaProgressSources(c *eng.Ctx) {
+	ix := eng.Index(c.P)
+	c.WhoMayCall("updateISRLatestOffset", []string{"server.partition.updateISRLatestOffset"},
+		[]string{"server.(*replicator).start", "server.(*partition).messageProcessingLoop"},
+		[]string{"server.(*replicator).start", "server.(*partition).messageProcessingLoop"})
+	for _, s := range ix.Sites("server.partition.updateISRLatestOffset") {
+		call := s.Instr.(*ssa.Call)
+		switch s.Outer() {
+		case "server.(*replicator).start":
+			ok := eng.LoadNamed("replica", nil)(call.Call.Args[1]) && eng.LoadNamed("Offset", nil)(call.Call.Args[2])
+			c.Check(ok, "follower progress from its replication request", c.Pos(call), "updateISRLatestOffset(r.replica, req.Offset)", "follower progress is not taken from (r.replica, req.Offset)")
+		case "server.(*partition).messageProcessingLoop":
+			ok := eng.LoadNamed("ServerID", nil)(call.Call.Args[1])
+			i := indexOfLoad(call.Call.Args[2])
+			ok = ok && i != nil && eng.Call(0, "server/commitlog.CommitLog.Append")(i.X)
+			c.Check(ok, "leader progress from its own append", c.Pos(call), "updateISRLatestOffset(own server id, last appended offset)", "leader progress is not (own id, last offset returned by Append)")
+		}
 	}
 }
